@@ -28,7 +28,7 @@ ASSUMPTIONS = ["N_l = 0 with V_l > 0 counts as infinite variance; V_l = 0 contri
                "the boundary are not judged",
                "runs with worker processes: the samples are counted where they reach the statistics in the parent process"]
 REQUIRED_COUNTERS = ["allocation_checks", "bias_tolerance_measurements", "stopping_test_evaluations", "stopping_test_on_fewer-than-three_levels",
-                     "run_stopping_tests_rechecked", "runs_with_worker_processes", "runs", "criteria_calls_observed", "allocation_calls_observed",
+                     "run_stopping_tests_rechecked", "runs_with_worker_processes", "stopping_tests_with_given_rates", "runs", "criteria_calls_observed", "allocation_calls_observed",
                      "runs_stopped_by_criteria", "runs_stopped_at_maximum_level", "default_configuration_histories"]
 MIN_NONTRIVIAL = {"quick": 300, "thorough": 6000}
 SHARD_TIMEOUT = {"quick": 900, "thorough": 7200}
@@ -45,6 +45,12 @@ def gen_cases(tier, seed):
                       "N0": int(rng.choice([2, 5, 20, 100])), "Lmax_extra": int(rng.integers(0, 6)), "beta": float(rng.uniform(0.6, 2.2)),
                       "alpha": float(rng.uniform(0.5, 1.5)), "rates_given": bool(i % 3 != 0), "scale": float(rng.choice([1.0, 30.0])),
                       "budget": 2_000_000 if tier == "thorough" else 150_000})
+    # rates given by the user at the low end of what the configuration accepts (alpha >= min(beta, gamma) / 2)
+    for i in range(8 if tier == "quick" else 80):
+        al = float(rng.uniform(0.15, 0.5))
+        cases.append({"kind": "run", "seed": int(rng.integers(2**31)), "profile": ["slow-decay", "geometric"][i % 2], "rmse_exp": float(rng.uniform(-1.2, -0.3)),
+                      "L0": int(rng.choice([1, 2, 3])), "N0": int(rng.choice([20, 100])), "Lmax_extra": int(rng.integers(3, 8)), "beta": float(rng.uniform(0.2, 2 * al)),
+                      "alpha": al, "rates_given": True, "scale": 1.0, "budget": 150_000})
     # a maximum level below the initial level: refused by the configuration, or honoured (no level above the maximum is ever simulated)
     for i in range(4 if tier == "quick" else 30):
         cases.append({"kind": "run", "seed": int(rng.integers(2**31)), "profile": "geometric", "rmse_exp": float(rng.uniform(-1.2, -0.4)),
@@ -331,6 +337,13 @@ def _run(case, R):
                 R.violation(f"stopping-test-{'passes' if last[1] else 'fails'}-against-the-last-three-level-means-{'fewer-than-four-levels' if last[2] < 4 else 'four-or-more-levels'}",
                             f"the run's last stopping test, criteria(alpha={last[4]!r}, ml={last[5].tolist()}, rmse={last[6]!r}) = {last[1]}, but the last "
                             f"{min(3, last[2])} level means extrapolated {'exceed' if last[1] else 'are within'} the observed tolerance {T!r}", wit)
+    if case["rates_given"]:
+        # the rates are the user's: every stopping test of the run is evaluated with the configured weak rate
+        R.hit("stopping_tests_with_given_rates", len(crit))
+        other = [c for c in crit if c[4] != case["alpha"]]
+        if other:
+            R.violation("stopping-test-evaluated-with-another-rate-than-the-given-one", f"convergence rates given (alpha = {case['alpha']!r}): {len(other)} of the "
+                        f"{len(crit)} stopping tests were evaluated with alpha = {other[0][4]!r}", wit)
     if not crit:
         # returned through the "initial number of paths too low" exit: only legal when no allocation asked for more samples
         R.violation("returned-without-bias-test", "price() returned although the stopping test was never evaluated", wit)
